@@ -72,17 +72,21 @@ Qed.
 Lemma s_id_from_diff : bytes_eqb s_from s_id = false.
 Proof. reflexivity. Qed.
 
+Lemma plain_id_not_from x : plain_is s_id x = true -> plain_is s_from x = false.
+Proof.
+  unfold plain_is. intro H. apply andb_true_iff in H. destruct H as [_ H].
+  apply bytes_eqb_eq in H. rewrite H. apply andb_false_r.
+Qed.
+
 Lemma idfrom_filter_spec a :
   idfrom_filter a = (filter (fun x => negb (dropped x)) a, (has_nonempty s_id a, has_nonempty s_from a)).
 Proof.
   induction a as [|x r IH]; [reflexivity|].
   cbn [idfrom_filter filter has_nonempty existsb]. rewrite IH.
-  unfold dropped, local_is, has_nonempty.
-  destruct (bytes_eqb (nlocal (aname x)) s_id) eqn:Eid.
-  - assert (Ef : bytes_eqb (nlocal (aname x)) s_from = false).
-    { apply bytes_eqb_eq in Eid. rewrite Eid. reflexivity. }
-    rewrite Ef. destruct (is_empty (aval x)); reflexivity.
-  - destruct (bytes_eqb (nlocal (aname x)) s_from) eqn:Ef; destruct (is_empty (aval x)); reflexivity.
+  unfold dropped, has_nonempty.
+  destruct (plain_is s_id x) eqn:Eid.
+  - rewrite (plain_id_not_from x Eid). destruct (is_empty (aval x)); reflexivity.
+  - destruct (plain_is s_from x) eqn:Ef; destruct (is_empty (aval x)); reflexivity.
 Qed.
 
 Lemma complete_start_spec c id n a :
@@ -117,7 +121,7 @@ Proof.
   intro Hid. unfold spec_attrs. rewrite !has_nonempty_app, has_nonempty_filter_kept.
   destruct (has_nonempty s_id a) eqn:E; [reflexivity|].
   rewrite orb_false_l. apply orb_true_iff. right.
-  unfold has_nonempty, id_attr, local_is. cbn [existsb aname nlocal aval].
+  unfold has_nonempty, id_attr, plain_is. cbn [existsb aname nlocal nspace aval is_empty andb].
   rewrite bytes_eqb_refl. destruct id; [congruence|reflexivity].
 Qed.
 
@@ -128,7 +132,7 @@ Proof.
   destruct (has_nonempty s_from a) eqn:E; [reflexivity|].
   assert (Hne : is_empty (c_from c) = false) by (destruct (c_from c); [congruence|reflexivity]).
   rewrite Hne. cbn [negb andb orb].
-  unfold has_nonempty at 1, from_attr, local_is. cbn [existsb aname nlocal aval].
+  unfold has_nonempty at 1, from_attr, plain_is. cbn [existsb aname nlocal nspace aval is_empty andb].
   rewrite bytes_eqb_refl, Hne. reflexivity.
 Qed.
 
@@ -983,11 +987,12 @@ Proof.
   induction a as [|x r IH]; [reflexivity|].
   cbn [filter]. destruct (is_xmlns_attr x) eqn:E; cbn [negb].
   - rewrite IH. cbn [has_nonempty existsb]. fold (has_nonempty l r).
-    unfold local_is. unfold is_xmlns_attr in E. apply bytes_eqb_eq in E. rewrite E.
+    unfold is_xmlns_attr, plain_is in E. apply andb_true_iff in E. destruct E as [E1 E].
+    unfold plain_is. apply bytes_eqb_eq in E. rewrite E.
     assert (Hf : bytes_eqb s_xmlns l = false).
     { destruct (bytes_eqb s_xmlns l) eqn:F; [|reflexivity].
       apply bytes_eqb_eq in F. rewrite <- F, bytes_eqb_refl in Hl. discriminate. }
-    rewrite Hf. reflexivity.
+    rewrite Hf, andb_false_r. reflexivity.
   - cbn [has_nonempty existsb]. fold (has_nonempty l r). fold (has_nonempty l (filter (fun x0 => negb (is_xmlns_attr x0)) r)).
     rewrite IH. reflexivity.
 Qed.
@@ -1118,4 +1123,138 @@ Proof.
   destruct (H Hwf) as [rg [xs [o' [Hc [He [_ Hw]]]]]].
   cbn [compile] in Hc. injection Hc as <-.
   vm_compute in He. injection He as <- _. vm_compute in Hw. discriminate.
+Qed.
+
+(* ------------------------------------------------ the wire under all schedules *)
+
+Lemma pending_of_app : forall l1 buf l2,
+  pending_of buf (l1 ++ l2) = pending_of (pending_of buf l1) l2.
+Proof.
+  induction l1 as [|e r IH]; intros buf l2; [reflexivity|].
+  destruct e; cbn [app pending_of]; apply IH.
+Qed.
+
+Lemma pending_of_toks : forall toks buf, pending_of buf (map EvTok toks) = buf ++ toks.
+Proof.
+  induction toks as [|t r IH]; intro buf; cbn [map pending_of].
+  - rewrite app_nil_r. reflexivity.
+  - rewrite IH, <- app_assoc. reflexivity.
+Qed.
+
+Lemma pending_of_flushes k buf : pending_of buf (repeat EvFlush (S k)) = [].
+Proof. cbn [repeat pending_of]. induction k as [|k IH]; [reflexivity|]. cbn [repeat pending_of]. exact IH. Qed.
+
+(* nothing is lost or reordered between the encoder and the connection: what
+   has been written plus what is still buffered are the accepted tokens *)
+Lemma wire_plus_pending : forall l buf,
+  (forall x, In x l -> x <> EvClose) ->
+  exists toks, wire_of buf l ++ map WTok (pending_of buf l) = map WTok (buf ++ toks) /\
+               toks = flat_map (fun x => match x with EvTok t => [t] | _ => [] end) l.
+Proof.
+  induction l as [|e r IH]; intros buf Hnc.
+  - exists []. cbn [wire_of pending_of app flat_map]. rewrite app_nil_r. split; reflexivity.
+  - assert (Hr : forall x, In x r -> x <> EvClose) by (intros x Hx; apply Hnc; right; exact Hx).
+    destruct e.
+    + destruct (IH (buf ++ [t]) Hr) as [toks [H1 H2]].
+      exists (t :: toks). cbn [wire_of pending_of flat_map app]. split; [|rewrite H2; reflexivity].
+      rewrite H1, <- app_assoc. reflexivity.
+    + destruct (IH [] Hr) as [toks [H1 H2]].
+      exists toks. cbn [wire_of pending_of flat_map app]. split; [|exact H2].
+      rewrite <- app_assoc, H1. cbn [app]. rewrite map_app. reflexivity.
+    + exfalso. apply (Hnc EvClose); [left|]; reflexivity.
+Qed.
+
+Lemma seq_log_no_close c : forall es ids x, In x (seq_log c ids es) -> x <> EvClose.
+Proof.
+  induction es as [|[e k] r IH]; intros ids x Hx; [contradiction|].
+  cbn [seq_log] in Hx. apply in_app_or in Hx. destruct Hx as [Hx|Hx]; [|eapply IH; exact Hx].
+  unfold block in Hx. apply in_app_or in Hx. destruct Hx as [Hx|Hx].
+  - apply in_map_iff in Hx. destruct Hx as [t [<- _]]. discriminate.
+  - apply repeat_spec in Hx. rewrite Hx. discriminate.
+Qed.
+
+Lemma seq_log_tokens c : forall es ids,
+  flat_map (fun x => match x with EvTok t => [t] | _ => [] end) (seq_log c ids es) = seq_tokens c ids es.
+Proof.
+  induction es as [|[e k] r IH]; intro ids; [reflexivity|].
+  cbn [seq_log seq_tokens]. rewrite flat_map_app, IH. f_equal.
+  unfold block. rewrite flat_map_app.
+  assert (H1 : forall toks, flat_map (fun x => match x with EvTok t => [t] | _ => [] end) (map EvTok toks) = toks).
+  { induction toks as [|t q IHq]; [reflexivity|]. cbn [map flat_map app]. rewrite IHq. reflexivity. }
+  assert (H2 : forall n, flat_map (fun x => match x with EvTok t => [t] | _ => [] end) (repeat EvFlush n) = []).
+  { induction n as [|n IHn]; [reflexivity|]. cbn [repeat flat_map app]. exact IHn. }
+  rewrite H1, H2, app_nil_r. reflexivity.
+Qed.
+
+(* if every call flushes, nothing stays buffered *)
+Lemma seq_log_pending c : forall es ids buf,
+  Forall (fun ek => (1 <= snd ek)%nat) es ->
+  pending_of buf (seq_log c ids es) = match es with [] => buf | _ => [] end.
+Proof.
+  induction es as [|[e k] r IH]; intros ids buf Hk; [reflexivity|].
+  inversion Hk as [|? ? Hk1 Hkr]; subst. cbn [snd] in Hk1.
+  cbn [seq_log]. rewrite pending_of_app. unfold block. rewrite pending_of_app, pending_of_toks.
+  destruct k as [|k]; [lia|]. rewrite pending_of_flushes.
+  rewrite (IH _ [] Hkr). destruct r; reflexivity.
+Qed.
+
+Lemma wire_seq_log c ids es :
+  map WTok (seq_tokens c ids es) =
+    wire_of [] (seq_log c ids es) ++ map WTok (pending_of [] (seq_log c ids es)) /\
+  (Forall (fun ek => (1 <= snd ek)%nat) es -> wire_of [] (seq_log c ids es) = map WTok (seq_tokens c ids es)).
+Proof.
+  destruct (wire_plus_pending (seq_log c ids es) [] (seq_log_no_close c es ids)) as [toks [H1 H2]].
+  rewrite seq_log_tokens in H2. subst toks. cbn [app] in H1. split; [symmetry; exact H1|].
+  intro Hk. rewrite (seq_log_pending c es ids [] Hk) in H1.
+  destruct es; cbn [map] in H1; rewrite app_nil_r in H1; exact H1.
+Qed.
+
+Lemma Forall2_len {A B} (P : A -> B -> Prop) l1 l2 : Forall2 P l1 l2 -> length l1 = length l2.
+Proof. induction 1 as [|x y l1 l2 _ _ IH]; [reflexivity|]. cbn [length]. rewrite IH. reflexivity. Qed.
+
+Theorem wire_all_schedules c ids calls elems tr g :
+  Forall2 (fun cl ek => denotes cl (fst ek) (snd ek) /\ wf_tree (fst ek)) calls elems ->
+  run (step c) (ginit ids (map call_thread calls)) tr = Some g ->
+  finished g = true ->
+  let es := map (fun i => nth i elems no_elem) (map fst (g_acq g)) in
+  map WTok (seq_tokens c ids es) = wire (g_out g) ++ map WTok (pending_of [] (o_log (g_out g))) /\
+  (Forall (fun ek => (1 <= snd ek)%nat) elems -> wire (g_out g) = map WTok (seq_tokens c ids es)).
+Proof.
+  intros HF Hrun Hfin es.
+  destruct (atomic_all_schedules c ids calls elems tr g HF Hrun Hfin) as [_ [Hin [Hlog _]]].
+  unfold wire. rewrite Hlog. fold es.
+  destruct (wire_seq_log c ids es) as [H1 H2]. split; [exact H1|].
+  intro Hk. apply H2. unfold es. apply Forall_forall. intros ek Hek.
+  apply in_map_iff in Hek. destruct Hek as [i [<- Hi]].
+  apply Hin in Hi. pose proof (Forall2_len _ _ _ HF) as Hlen. rewrite Hlen in Hi.
+  rewrite Forall_forall in Hk. apply Hk. apply nth_In. exact Hi.
+Qed.
+
+(* ------------------------------------------------- tables read from the source *)
+
+(* session.go isStanzaEmptySpace accepts exactly iq / message / presence in no
+   name space or a content name space; isIQEmptySpace, isMessageEmptySpace and
+   isPresenceEmptySpace accept the same name spaces and their own local name;
+   stanzaEncoder.EncodeToken looks at the attribute names id, from and xmlns;
+   the xml prefix stands for the XML name space; generated ids are not empty *)
+Lemma source_tables :
+  so_stanza_locals = map kind_local [KIQ; KMessage; KPresence] /\
+  same_set so_stanza_spaces [[]; so_ns_client; so_ns_server] = true /\
+  length so_kind_tables = 3%nat /\
+  forallb (fun pk => list_eqb bytes_eqb (fst (fst pk)) [kind_local (snd pk)] && same_set (snd (fst pk)) so_stanza_spaces)
+          (combine so_kind_tables [KIQ; KMessage; KPresence]) = true /\
+  so_se_literals = [s_id; s_from; s_xmlns] /\
+  so_ns_xml = str "http://www.w3.org/XML/1998/namespace" /\
+  so_ns_client <> [] /\ so_ns_server <> [] /\ so_ns_client <> so_ns_server /\
+  (0 < so_id_len)%nat.
+Proof.
+  repeat split; try (vm_compute; reflexivity); try discriminate. vm_compute. lia.
+Qed.
+
+(* is_kind_name is isIQEmptySpace / isMessageEmptySpace / isPresenceEmptySpace *)
+Lemma kind_name_table k n :
+  is_kind_name k n = true -> is_stanza_name n = true.
+Proof.
+  unfold is_kind_name, is_stanza_name. intro H. apply andb_true_iff in H. destruct H as [H1 H2].
+  rewrite H2, andb_true_r. apply bytes_eqb_eq in H1. rewrite H1. destruct k; reflexivity.
 Qed.
